@@ -400,3 +400,177 @@ wf:
     b:
       action: std.noop
 """
+
+
+# ---------------------------------------------------------------------------
+# C06.R  an engine transaction retried after a database deadlock has the
+# effect of one execution
+# ---------------------------------------------------------------------------
+RETRY_SHAPES = {
+    'fork_join': None,      # filled from shapes below
+    'with_items': WITH_ITEMS_2,
+    'policies': """
+version: '2.0'
+wf:
+  tasks:
+    a:
+      action: std.noop
+      wait-before: 1
+      wait-after: 1
+      on-success: b
+    b:
+      action: std.noop
+      retry:
+        count: 1
+        delay: 0
+""",
+}
+
+
+def _c06_r_case(shape, text, max_delivery, max_stmt):
+    """At a solver-chosen delivery the k-th database statement (solver
+    choice) fails with DBDeadlock: the transaction is rolled back and the
+    handler runs again (mistral.db.utils.retry_on_db_error)."""
+    spec = C01.parse(text)
+
+    def case():
+        from oslo_db import exception as db_exc
+        from vt import env as venv
+        from mistral.db import utils as db_utils
+        import tenacity.nap
+        sig = 'C06.R:%s' % shape
+        w, start = scenario.make(text, sig, 0, None)
+        d = choice('deadlock_at_delivery', list(range(1, max_delivery + 1)))
+        k = choice('deadlock_at_statement', list(range(0, max_stmt)))
+        st = {'delivery': 0, 'stmt': 0, 'fired': False, 'armed': False}
+        with w:
+            # scheduler jobs are rows of the failed transaction: they go
+            # away with it; RPC messages / actions sent during a failed
+            # attempt were really sent
+            real_attempt = db_utils._with_auth_context
+
+            def attempt(auth_ctx, func, *a, **kw):
+                before = list(w.events)
+                n_cas = len(w.cas_log)
+                try:
+                    return real_attempt(auth_ctx, func, *a, **kw)
+                except (db_exc.DBDeadlock,):
+                    w.events[:] = [e for e in w.events
+                                   if e in before or e.kind != 'job']
+                    del w.cas_log[n_cas:]      # rolled back with the rest
+                    raise
+            w._stack.enter_context(venv.patched(db_utils,
+                                                '_with_auth_context',
+                                                attempt))
+            w._stack.enter_context(venv.patched(tenacity.nap.time, 'sleep',
+                                                lambda s: None))
+
+            def on_op(session, op):
+                if not st['armed'] or st['fired'] or \
+                        getattr(w, 'in_post_commit', 0):
+                    # (post-commit operations run after the transaction;
+                    # a failure there is outside this obligation)
+                    return
+                st['stmt'] += 1
+                if st['stmt'] - 1 == k:
+                    st['fired'] = True
+                    reach('deadlock-injected')
+                    reach('deadlock-at-' + op.split(' ')[0])
+                    raise db_exc.DBDeadlock()
+            w.db.on_op = on_op
+            ex, wid = start()
+            real_deliver = ex.deliver
+
+            def deliver(ev, *a, **kw):
+                st['delivery'] += 1
+                st['armed'] = st['delivery'] == d
+                st['stmt'] = 0
+                n_err = len(w.errors)
+                n_cas = len(w.cas_log)
+                before = list(w.events)
+                try:
+                    r = real_deliver(ev, *a, **kw)
+                finally:
+                    st['armed'] = False
+                esc = [e for m, e in w.errors[n_err:]
+                       if isinstance(e, db_exc.DBDeadlock)]
+                if esc:
+                    # the handler is not decorated with retry_on_db_error
+                    # (start_task): the error goes back to the message
+                    # transport, which delivers the request again
+                    # (at-least-once) - exactly a redelivery after a failed
+                    # attempt
+                    del w.errors[n_err:]
+                    del w.cas_log[n_cas:]
+                    # (scheduler jobs are rows of the rolled-back
+                    # transaction)
+                    w.events[:] = [e for e in w.events
+                                   if e in before or e.kind != 'job']
+                    reach('redelivered-by-transport')
+                    from vt.world import Event
+                    w.events.insert(0, Event(ev.kind, ev.label + ' (redelivered)',
+                                             ev.payload))
+                    ex.snap = type(ex.snap)(w)
+                    ex.cas_pos = len(w.cas_log)
+                return r
+            ex.deliver = deliver
+            scenario.run_with_ops(ex, w, [])
+            w.db.on_op = None
+            assume(st['fired'])
+            reach('quiescent')
+            inf = scenario.final_check(ex, w, wid, spec, sig)
+            for t in w.tasks(wid):
+                idx = [(a['runtime_context'] or {}).get('index', 0)
+                       for a in w.actions(t['id'])]
+                retries = 1 if (t['spec'] or {}).get('retry') else 0
+                if not ex.taint and ex.outcomes.get(t['name']) != 'ERROR':
+                    check(len(idx) == len(set(idx)),
+                          'action-dispatched-twice',
+                          dict(inf('action-twice'), task=t['name'],
+                               n=len(idx)))
+                acc = [(a['runtime_context'] or {}).get('index', 0)
+                       for a in w.actions(t['id']) if a['accepted']]
+                check(len(acc) == len(set(acc)), 'two-results-accepted',
+                      dict(inf('two-accepted'), task=t['name']))
+    return case
+
+
+@obligation(
+    'C06.R', engine='symx+world(minidb)',
+    functions=['mistral.db.utils:retry_on_db_error',
+               'mistral.engine.post_tx_queue:run',
+               'mistral.engine.default_engine:DefaultEngine.start_task',
+               'mistral.engine.default_engine:DefaultEngine.on_action_complete',
+               'mistral.engine.task_handler:_refresh_task_state',
+               'mistral.engine.task_handler:_scheduled_on_action_complete',
+               'mistral.engine.policies:_continue_task',
+               'mistral.engine.policies:_complete_task',
+               'mistral.engine.workflow_handler:_check_and_complete'],
+    bounds={'quick': 'shapes fork_join, with-items (2 items), a chain with '
+                     'wait-before / wait-after / retry; at one of the first '
+                     '12 deliveries (solver choice) the k-th statement (k < '
+                     '14, solver choice) of the engine transaction raises '
+                     'DBDeadlock and the decorated handler is retried; '
+                     'outcomes symbolic; FIFO',
+            'thorough': 'first 20 deliveries, k < 24'},
+    stubs=['minidb (statement hook raises oslo.db DBDeadlock)', 'QueueRPC',
+           'FakeScheduler (jobs of a rolled-back attempt are discarded, as '
+           'rows of that transaction; RPC messages are not)',
+           'FakeExecutor', 'tenacity sleep -> no-op'],
+    outside='DBConnectionError / OperationalError (same retry path); more '
+            'than one deadlock per run; deadlocks inside the post-commit '
+            'operations',
+    timeout=(400, 2400))
+def c06_r(ctx):
+    """a handler that is rolled back by a deadlock at any statement and
+    retried leaves the run exactly where a single undisturbed execution
+    would: same final states as the reference, no action dispatched twice,
+    no second accepted result, only declared errors"""
+    boot()
+    md, ms = ctx.pick(12, 20), ctx.pick(14, 24)
+    for shape, text in (('fork_join', shapes.FORK_JOIN),
+                        ('with_items', RETRY_SHAPES['with_items']),
+                        ('policies', RETRY_SHAPES['policies'])):
+        yield Case(shape, _c06_r_case(shape, text, md, ms),
+                   needed=['deadlock-injected', 'quiescent'],
+                   max_paths=500000)
